@@ -202,7 +202,7 @@ def run(ctx: Ctx):
         if f is None:
             continue
         for cs in p.all_calls(f):
-            if cs.external and cs.caller is f and any(cs.external == n or (n.endswith(".") and cs.external.startswith(n)) for n in NONDET):
+            if cs.external and any(cs.external == n or (n.endswith(".") and cs.external.startswith(n)) for n in NONDET):
                 ctx.bad("R-C06-6", f, cs.node, f"{cs.external} is reachable from a gamma computation ({' -> '.join(path[-3:])}): its value differs between runs / processes "
                         f"(object addresses, PYTHONHASHSEED, clock)", key=f"nondet:{cs.external}")
     ctx.ok("R-C06-6", None, None, f"{len(p.reachable(roots))} reachable functions swept for set iteration",
